@@ -133,9 +133,9 @@ Section Universe.
       intros p st HB Hin Hok; cbn [collect_go fids_sels] in *.
     - exists st. repeat split; auto. apply incl_refl.
     - apply incl_cons_l in Hin as [Hf Hin].
-      destruct (IHrest p (fst st, mkEntry p f sub :: snd st)) as [st' [H1 [H2 H3]]]; cbn [fst snd]; auto.
+      destruct (IHrest p (fst st, snd st ++ [mkEntry p f sub])) as [st' [H1 [H2 H3]]]; cbn [fst snd]; auto.
       + eapply incl_app_r; eauto.
-      + constructor; auto. split; cbn; auto. eapply incl_app_l; eauto.
+      + apply Forall_app. split; auto. constructor; auto. split; cbn; auto. eapply incl_app_l; eauto.
       + exists st'. auto.
     - destruct (IHsub (match tc with Some t => t | None => p end) st) as [st1 [H1 [H2 H3]]]; auto.
       { eapply incl_app_l; eauto. }
@@ -352,10 +352,10 @@ Fixpoint entries_of (p : N) (ss : sels) : list entry :=
   end.
 
 Lemma collect_go_fields frags rec p ss : forall st, fields_only ss ->
-  collect_go frags rec p ss st = Some (fst st, rev (entries_of p ss) ++ snd st).
+  collect_go frags rec p ss st = Some (fst st, snd st ++ entries_of p ss).
 Proof.
   induction ss as [|f sub _ rest IH| |]; intros st H; cbn in *; try contradiction.
-  - destruct st; reflexivity.
+  - rewrite app_nil_r. destruct st; reflexivity.
   - rewrite IH by exact H. cbn [fst snd]. rewrite <- app_assoc. reflexivity.
 Qed.
 
@@ -381,8 +381,8 @@ Theorem distinct_names_never_conflict s frags cf df p ss :
   fields_only ss -> NoDup (rnames ss) -> check_set s frags cf df p ss = VNo.
 Proof.
   intros Hf Hn. unfold check_set.
-  assert (collect frags cf p ss ([], []) = Some ([], rev (entries_of p ss) ++ [])) as ->.
+  assert (collect frags cf p ss ([], []) = Some ([], [] ++ entries_of p ss)) as ->.
   { destruct cf; cbn [collect]; apply (collect_go_fields _ _ _ _ ([], [])); exact Hf. }
-  cbn [snd]. rewrite pairs_distinct; [reflexivity|].
-  rewrite app_nil_r, map_rev, entries_rnames. apply NoDup_rev. exact Hn.
+  cbn [snd app]. rewrite pairs_distinct; [reflexivity|].
+  rewrite entries_rnames. exact Hn.
 Qed.
